@@ -302,6 +302,7 @@ class Interpreter(BaseInterpreter[TContext, TEvent]):
         #    loop, which lets that child's own managing task run its `finally`
         #    and pop itself from `self._actors` — mutating the dict mid-loop
         #    and raising "dictionary changed size during iteration".
+        self._unregister_children_from_system()
         for actor in list(self._actors.values()):
             await actor.stop()
         self._actors.clear()
